@@ -221,7 +221,9 @@ CLAIMED = {
     'C10': ('exploration',
             'Grammar-based generation of abstract DS9 files rendered to text, '
             'differential test against a reference interpreter that walks the '
-            'abstract statements (no shared code with regions.io)',
+            'abstract statements (no shared code with regions.io); plus a '
+            'coverage-guided (atheris/libFuzzer via fuzz_one_input) campaign '
+            'over the same grammar and oracle',
             'Random search over files of up to 12 (quick) / 40 (thorough) '
             'statements mixing frames, aliases, unsupported frames/shapes, '
             'globals, composites, all coordinate notations and size units, '
@@ -236,7 +238,8 @@ CLAIMED = {
             'Hypothesis round-trip / fixed-point tests of CRTF serialise->parse '
             'over classes x frames x coordsys x fmt x radunit x metadata, and a '
             'grammar-based differential test of the reader against a reference '
-            'interpreter of the CASA rules',
+            'interpreter of the CASA rules (random tier plus a coverage-guided '
+            'atheris/libFuzzer campaign over the same grammar and oracle)',
             'Write side: random lists of CRTF-representable regions; every '
             'number within half a unit of fmt in the written unit, include / '
             'ann / label / metadata preserved, caller\'s regions untouched, '
